@@ -15,7 +15,7 @@ SUITE="$(cd "$SCR" && PYTHONPATH="$SCR" /venv/bin/python -m pytest -q -p no:cach
 RES=""
 for C in "$@"; do
   OUT="$(cd /verif && OSLO_UTILS_VERIF_REPO="$SCR" VERIF_SCRATCH_EVIDENCE="$SCR/ev" ./vcheck "$C" 2>&1)"; RC=$?
-  CLS="$(printf '%s\n' "$OUT" | grep -m1 '^  class' | cut -c1-260 | tr '"' "'")"
+  CLS="$(printf '%s\n' "$OUT" | grep -m1 '^  class' | cut -c1-260 | tr '"' "'" | tr '\\' '/')"
   RES="$RES{\"check\":\"$C\",\"exit\":$RC,\"first_class\":\"$CLS\"},"
   echo "SEED $ID check=$C exit=$RC $CLS"
 done
